@@ -317,18 +317,22 @@ def run(prog, rep):
         rep.instance('R5', f'{fq}: {what}: {okv}')
         if not okv:
             rep.violation('R5', loc(lmod, lns), fq, what, f'the accounting summary no longer satisfies: {what}')
-    # capacity preference: allocations, else capacities
+    # component tally: the count of the component's type goes up by exactly one
     lcs = lg.methods.get('_collect_attributes_from_component_sliver')
-    rep.instance('R5', 'component tally increments by one per component')
-    if 'cnt + 1' not in ast.unparse(lcs):
-        rep.violation('R5', loc(lmod, lcs), f'{lg.name}._collect_attributes_from_component_sliver', 'not +1', 'component tally must add one')
+    plus_one = [n for n in ast.walk(lcs) if isinstance(n, ast.BinOp) and isinstance(n.op, ast.Add) and
+                any(isinstance(x, ast.Constant) and x.value == 1 for x in (n.left, n.right))] + \
+               [n for n in ast.walk(lcs) if isinstance(n, ast.AugAssign) and isinstance(n.op, ast.Add) and isinstance(n.value, ast.Constant) and n.value.value == 1]
+    stores = [n for n in ast.walk(lcs) if isinstance(n, (ast.Assign, ast.AugAssign)) and "['components']" in ast.unparse(n.targets[0] if isinstance(n, ast.Assign) else n.target)]
+    rep.instance('R5', f'component tally: +1 expressions {len(plus_one)}, stores into the components tally {len(stores)}')
+    if not plus_one or not stores:
+        rep.violation('R5', loc(lmod, lcs), f'{lg.name}._collect_attributes_from_component_sliver', 'component count not incremented by one',
+                      'every component must add one to the tally of its type')
     lsv = lg.methods.get('_collect_attributes_from_ns_sliver')
-    rep.instance('R5', 'service tally appends one tuple per service')
-    stmts = [s for s in lsv.body if "self._attributes['services'].append" in ast.unparse(s)]
-    if not stmts:
+    direct = [st for st in lsv.body if updates(st, 'services')]
+    rep.instance('R5', f'service tally appends one entry per service unconditionally: {bool(direct)}')
+    if not direct:
         rep.violation('R5', loc(lmod, lsv), f'{lg.name}._collect_attributes_from_ns_sliver', 'service not tallied unconditionally',
                       'every service must be appended to the services tally')
-
 
 AC = 'fim/authz/attribute_collector.py'
 LC = 'fim/logging/log_collector.py'
